@@ -39,7 +39,10 @@ LEVEL_TEXT = (
     "object's own derivation, every gradient is the gradient of its own object, any op sequence); a helper object's "
     "back-reference points to the most recent optimiser it was given to (own state iff not shared); scico.random results "
     "and returned keys are functions of (shape, dtype, key|seed), both -> error, default seed 0, nested -> blocks, key "
-    "threading.  Mode independence (eager / jax.jit / constructor jit / disable_jit) is checked differentially only."
+    "threading; constructor option dictionaries (literal defaults are immune to every history, the by-reference default is "
+    "characterised); the jit slots of LinearOperator (what is wrapped, how often, which adjoint) for all histories.  Mode "
+    "independence (eager / jax.jit / constructor jit / disable_jit) is checked differentially only - in process and against a "
+    "new interpreter; module-level state of scico is audited before/after."
 )
 LEVEL_NOTE = (
     "partial: that XLA-compiled and eager execution agree is a property of the JAX runtime which no model of scico "
@@ -66,12 +69,14 @@ RULE = (
     "sequences over 4 loss classes, non-trivial when >=1 rescale. attach: helper-id sequences (shared and unshared) for "
     "ADMM sub-problem solvers and PGM step-size objects. rng: every wrapped jax.random function with signature "
     "(key, shape, dtype, ...) x 9 argument forms x plain/nested shapes. modes: one case per (catalogue entry, call, "
-    "mode|history); non-trivial = every case whose mode differs from fresh-eager."
+    "mode|history|fresh-process); non-trivial = every case whose mode differs from fresh-eager. opts: op sequences (caller dict / "
+    "construct / in-place write) on the four option dictionaries. jit: 3 construction variants x jit option x op sequences."
 )
 ASSUMPTIONS = [
     "jax.random.PRNGKey/split and the wrapped jax.random functions are deterministic functions of their arguments (contract of C19_rng_args; exercised)",
     "a cached operator reports the (shape, dtype) it was built for (op.shape[1], op.input_dtype) - hypothesis hG/hP of C19_tv_cache; checked on every history step",
-    "jax.jit / jax.disable_jit do not change values beyond rounding (NOT modelled; multi-mode differential tie only)",
+    "jax.jit / jax.disable_jit do not change values beyond rounding (NOT modelled; hypothesis hJ of C19_jit_value; multi-mode differential tie only)",
+    "two interpreters on this machine compute the same values to rounding (fresh-process reference; tolerance = the entry's rtol)",
 ]
 
 warnings.simplefilter("ignore")
@@ -161,8 +166,10 @@ def _corr_tv(ctx, model):
         if ctx.rng.random() < 0.4:
             pre = [list(pool[0][0]), pool[0][1]]
         ops = []
-        for _ in range(int(ctx.rng.integers(2, 7))):
+        for _ in range(int(ctx.rng.integers(2, 8))):
             s, d = pool[int(ctx.rng.integers(0, len(pool)))]
+            if ops and ctx.rng.random() < 0.35:  # same array kind again: a cache hit when the kind of call repeats too
+                s, d = tuple(ops[-1]["shape"]), ops[-1]["dt"]
             if ctx.rng.random() < 0.3:  # same shape, other dtype: the stream the shape-only keying fails on
                 d = dts[int(ctx.rng.integers(0, 3))]
             ops.append({"k": "call" if ctx.rng.random() < 0.5 else "prox", "shape": list(s), "dt": d})
@@ -178,7 +185,7 @@ def _tv_case(ctx, model, case):
                    ops=[{"k": o["k"], "shape": o["shape"], "dtype": DT_CODE[o["dt"]]} for o in ops])
     keys = [(tuple(o["shape"]), o["dt"], o["k"]) for o in ops]
     nt = ("tv", json.dumps(case, sort_keys=True)) if len(set(keys)) < len(keys) or len(set(k[:2] for k in keys)) > 1 else None
-    ctx.case(case, nt)
+    ctx.case(case, nt, sample_every=37)
     ctx.count(f"tv:{case['cls']}")
     for k, (o, a, b) in enumerate(zip(ops, impl, m)):
         ctx.count("tv:rebuilt" if b["rebuilt"] else "tv:cache-hit")
@@ -731,7 +738,7 @@ def _modes_entry(ctx, entry, bases=None):
         for mode in _modes_for(entry):
             got = _eval_call(entry, call, mode)
             case = {"kind": "modes", "entry": entry.name, "call": call[0], "mode": mode}
-            ctx.case(case, ("modes", entry.name, call[0], mode))
+            ctx.case(case, ("modes", entry.name, call[0], mode), sample_every=131)
             ctx.count(f"modes:mode:{mode}")
             ctx.count(f"modes:dtype:{entry.dtype}")
             if base[0] != got[0]:
@@ -1140,7 +1147,7 @@ def _jit_case(ctx, model, variant, jit_opt, ops):
         states.append(state())
     m = model.call("jit", variant=variant, jit=bool(jit_opt), ops=ops)
     case = {"kind": "jit", "variant": variant, "jit": jit_opt, "ops": ops}
-    ctx.case(case, ("jit", variant, jit_opt, tuple(ops)))
+    ctx.case(case, ("jit", variant, jit_opt, tuple(ops)), sample_every=41)
     ctx.count(f"jit:{variant}")
     if states != m:
         k = next(i for i, (a, b) in enumerate(zip(states, m)) if a != b)
